@@ -6,6 +6,7 @@ From Coq Require Import ZArith List Bool String NArith.
 From Burrow Require Import Int64 Eval AMap Ring Storage Lockset LocksetProofs StorageConc StorageConcProofs.
 From BurrowGen Require Import LocksetTable RouterTable.
 Import ListNotations.
+Open Scope list_scope.
 
 (* ============================================================================================== *)
 (* (b) data-race freedom: lockset theorem + per-run table obligation                               *)
@@ -112,8 +113,8 @@ Print Assumptions conc_crash_refuted.
 
 (* deadlock freedom of the model at lock granularity: while work remains some worker is enabled *)
 Theorem conc_deadlock_free :
-  forall cf now guarded gs, unfinished gs = true -> exists i, enabled gs i = true.
-Proof. intros cf now guarded. exact conc_deadlock_free_proof. Qed.
+  forall gs : gstate, unfinished gs = true -> exists i, enabled gs i = true.
+Proof. exact conc_deadlock_free_proof. Qed.
 Print Assumptions conc_deadlock_free.
 
 (* ---- group order ----
